@@ -5,10 +5,15 @@ import RepeVerif.Driver.Common
 Driver for the `commit` correspondence family (C10).
 
 ```
-SCRIPT := <puller> <comp none|zstd> <fmt beve|raw> <open ok|err|cut> <verify ok|rej|panic> <trailer N>
-          <dest old|none|dir|olds|nones|noparent|symparent> <stop -|N> <dec -|err|B> <fault -|N|sync> wire <resp>…
+SCRIPT := <puller> <comp none|zstd> <fmt beve|raw> <open ok|err|cut> <verify ok|rej|panic|panics|panicv|slow> <trailer N>
+          <dest old|none|dir|olds|nones|noparent|symparent> <stop -|N> <dec -|err|B> <fault -|N|sync|dN|pN> wire <resp>…
   puller := file | bevezst | beve | trailer | fileasync | verifiedasync | trailerasync
-            (an async puller may carry the suffix `@ws`: driven over a WebSocketClient; same model)
+            suffixes the model does not look at: `@ws` (async puller over a WebSocketClient), `@ps` (entered
+            through `pull_stream`), `@s<N>` (presentation style of the scripted peer: query bytes of the
+            last flag, error codes, stream ids, format codes, resource names)
+  verify := panic / panics / panicv = verify panics with a String / &'static str / other payload;
+            slow = accepts after a delay
+  fault dN / pN := the caller's digest sink returns Err / panics once more than N bytes were fed
   resp   := c:<B>:<0|1>  (chunk body, last flag) | e (error response) | x (connection cut)
   B      := <H> (hex) | g<seed>.<len> (`genBytes seed len`, for large bodies)
   fault  := N: the temp file takes N bytes and the write of the next one fails (the pulling child runs
@@ -77,6 +82,7 @@ structure Parsed where
   codec : Codec
   stale : Bool := false   -- a stale temp file exists before the pull
   verifyPanics : Bool := false
+  digestPanics : Bool := false   -- fault `pN`: the digest sink panics (instead of `Err`) past N bytes
 
 def compOf : String → Option Comp
   | "none" => some .none | "zstd" => some .zstd | _ => none
@@ -91,17 +97,21 @@ def parseScript (ws : List String) : Option (Parsed × List String) :=
   | pu :: co :: fm :: op :: ve :: tr :: de :: st :: dc :: wf :: "wire" :: rest =>
     let wireWs := rest.takeWhile (· ≠ "::")
     let after := (rest.dropWhile (· ≠ "::")).drop 1
-    match pullerOf (if pu.endsWith "@ws" then (pu.dropEnd 3).toString else pu), compOf co, allSome (wireWs.map respOf), decOf dc with
+    match pullerOf ((pu.splitOn "@").headD ""), compOf co, allSome (wireWs.map respOf), decOf dc with
     | some p, some comp, some wire, some dec =>
-      if (fm = "beve" ∨ fm = "raw") ∧ (op = "ok" ∨ op = "err" ∨ op = "cut") ∧ (ve = "ok" ∨ ve = "rej" ∨ ve = "panic")
-          ∧ (de = "old" ∨ de = "none" ∨ de = "dir" ∨ de = "olds" ∨ de = "nones" ∨ de = "noparent" ∨ de = "symparent") ∧ tr.isNat ∧ (st = "-" ∨ st.isNat) ∧ (wf = "-" ∨ wf = "sync" ∨ wf.isNat) then
+      if (fm = "beve" ∨ fm = "raw") ∧ (op = "ok" ∨ op = "err" ∨ op = "cut") ∧ (ve = "ok" ∨ ve = "rej" ∨ ve = "panic" ∨ ve = "panics" ∨ ve = "panicv" ∨ ve = "slow")
+          ∧ (de = "old" ∨ de = "none" ∨ de = "dir" ∨ de = "olds" ∨ de = "nones" ∨ de = "noparent" ∨ de = "symparent") ∧ tr.isNat ∧ (st = "-" ∨ st.isNat) ∧ (wf = "-" ∨ wf = "sync" ∨ wf.isNat ∨ ((wf.startsWith "d" ∨ wf.startsWith "p") ∧ (wf.drop 1).toString.isNat)) then
         let stop := if st = "-" then none else some (natOf st)
         if stop.isSome ∧ !p.usesWriteFile then none else
         some (⟨p, { openOk := op = "ok", comp := comp, beve := fm = "beve", wire := wire, stop := stop,
-                    verifyOk := ve = "ok", trailer := natOf tr, renameOk := de ≠ "dir",
-                    writeFault := if wf = "-" ∨ wf = "sync" then none else some (natOf wf),
+                    verifyOk := ve = "ok" ∨ ve = "slow", trailer := natOf tr, renameOk := de ≠ "dir",
+                    -- a digest sink that refuses past N bytes fails the copy exactly like a file that takes N
+                    -- bytes (only the pullers that have a digest: the verifying ones)
+                    writeFault := if wf = "-" ∨ wf = "sync" then none
+                      else if wf.startsWith "d" ∨ wf.startsWith "p" then (if p.verifies then some (natOf (wf.drop 1).toString) else none)
+                      else some (natOf wf),
                     syncOk := wf ≠ "sync", createOk := de ≠ "noparent" },
-                ⟨fun _ => dec, fun _ => []⟩, de = "olds" ∨ de = "nones", ve = "panic"⟩, after)
+                ⟨fun _ => dec, fun _ => []⟩, de = "olds" ∨ de = "nones", ve.startsWith "panic", wf.startsWith "p"⟩, after)
       else none
     | _, _, _, _ => none
   | _ => none
@@ -142,6 +152,13 @@ def scriptObs (q : Parsed) : String :=
   -- the call unwinds instead of returning `Err` exactly when `verify` is reached
   let reached := q.verifyPanics && q.p.verifies &&
     (run Gen.Commit.steps q.p { q.s with verifyOk := true, renameOk := true } q.codec).ret == .ok
+  -- a digest sink that panics: same file-system effect as one that returns `Err`; the blocking puller
+  -- unwinds, the async ones report the dead consumer task as `Err`
+  let bites := q.s.openOk && preOk q.p q.s && !(limitWrites q.s.writeFault (envOf0 q.p q.s q.codec).writes).2
+  let reached := reached || (q.digestPanics && q.p.verifies && !q.p.isAsync && bites)
+  -- `TrailerHold::new` reserves `trailer_len` bytes: beyond isize::MAX that is a capacity-overflow panic
+  -- (after the temp file was created; the unwinding removes it)
+  let reached := reached || (q.p.hasTrailer && q.s.trailer > 2^63 - 1 && !q.p.isAsync && q.s.openOk && preOk q.p q.s)
   let base := joinSp ["ret", if reached then "panic" else showRet r.ret, "dest", dest, "tmp", if fs.tmp.isSome then "1" else "0"]
   if q.p.hasTrailer ∧ r.ret = .ok then
     let h := Hold.run q.s.trailer (decoded q.p q.s q.codec).writes
